@@ -99,6 +99,8 @@ def run_shard(shard):
             stdin_family(st)
         if li == 3:
             mergeat_family(st)
+        if li == 4:
+            repeat_family(st)
     finally:
         cleanup()
     st.sample({"lhs_stream": render_stream(STREAMS[li]),
@@ -258,6 +260,71 @@ def mergeat_family(st):
             for ridx in streams:
                 for mode in MODES:
                     mergeat_case(st, cfg, mergeat, lidx, ridx, mode, pol)
+
+
+def repeat_family(st):
+    """One file named more than once among the sources (A B A, A B B, A A):
+    every mention contributes the file's own documents again - the result is
+    the mode's fold over freshly read documents."""
+    pool = (0, 1, 2, 4)
+    pol = POLS[0]
+    cfg = mergerun.make_config(pol)
+    from yamlpath.common import Parsers
+    for a in pool:
+        for b in pool:
+            for order in ("ABA", "ABB", "AA", "ABAB"):
+                for mode in MODES:
+                    st.evaluations += 1
+                    cfg.args.multi_doc_mode = mode
+                    files = {"A": os.path.join(scratch(), "fa.yaml"),
+                             "B": os.path.join(scratch(), "fb.yaml")}
+                    idx = {"A": a, "B": b}
+                    for k, path in files.items():
+                        with open(path, "w", encoding="utf-8") as fh:
+                            fh.write(render_stream((idx[k],)))
+                    case = {"repeat": order, "lhs_stream": render_stream(
+                        (a,)), "rhs_stream": render_stream((b,)),
+                            "mode": mode, "policies": pol, "a": a, "b": b}
+                    try:
+                        acc = _fresh(idx[order[0]])
+                        for k in order[1:]:
+                            res, acc2 = mergerun.merge(acc, _fresh(idx[k]),
+                                                       cfg)
+                            if res != "ok":
+                                raise Impossible(acc2)
+                            acc = acc2
+                        want = corpus.canon(acc)
+                    except Impossible:
+                        want = None
+                    editor = Parsers.get_yaml_editor()
+                    Merger.depwarn_printed = False
+                    try:
+                        with core.watchdog(10):
+                            docs, _ = yaml_merge.get_doc_mergers(
+                                corpus.LOG, editor, cfg, files[order[0]])
+                            state = 0
+                            for k in order[1:]:
+                                state = state or yaml_merge.merge_docs(
+                                    corpus.LOG, editor, cfg, docs, files[k])
+                    except (Exception, core.Hang) as ex:  # pylint: disable=broad-except
+                        st.fail("repeat|crash|%s|%s" % (mode, type(
+                            ex).__name__), case, "a return state",
+                                repr(ex)[:200])
+                        continue
+                    st.transitions += len(order) - 1
+                    st.validated += 1
+                    st.states += 1
+                    st.sig("repeat", order, a, b, mode, want is None)
+                    if want is None:
+                        if state == 0:
+                            st.fail("repeat|%s|no-failure-status" % mode,
+                                    case, "a non-zero return state", "0")
+                        continue
+                    got = [corpus.canon(m.data) for m in docs]
+                    if state != 0 or got != [want]:
+                        st.fail("repeat|%s|document-content" % mode, case,
+                                repr(want)[:300], "state %s: %r" % (
+                                    state, got)[:300])
 
 
 def _fresh(i):
@@ -584,6 +651,16 @@ def replay(case):
             cleanup()
         for lst in st.fails.values():
             return lst[0]
+        return None
+    if case.get("repeat"):
+        try:
+            repeat_family(st)
+        finally:
+            cleanup()
+        for lst in st.fails.values():
+            for f in lst:
+                if f["case"] == case:
+                    return f
         return None
     if case.get("mergeat"):
         try:
